@@ -1262,7 +1262,7 @@ class C15Run(OnionRun):
             if not self.upload_condition():
                 d = self.foreign_uploaded_on_own_dir()
                 if d is not None:
-                    self.fail('C15.foreign-uploaded-completes-create',
+                    self.fail('C15.foreign-uploaded-counted-as-own',
                               'create() (%s, await_all=%r) completed although %s; a FOREIGN service\'s UPLOADED for directory #%d, '
                               'to which we had an upload pending, was taken for ours (UPLOADED is matched on the directory only)'
                               % (self.api, self.await_param, desc, HSDIRS.index(d)))
@@ -1344,7 +1344,7 @@ class C15Run(OnionRun):
                     # "last event was a FAILED" defect is not what keeps it pending.
                     at_uploaded = any(k == 'UPLOADED' and o and a <= (o | f) for k, (a, _, o, f) in zip(self.own_kinds(), hist))
                     if d is not None and at_uploaded:
-                        self.fail('C15.foreign-uploaded-blocks-await-all',
+                        self.fail('C15.foreign-uploaded-counted-as-own',
                                   'create(await_all_uploads=True) (%s) is still pending at quiescence although every attempted upload is '
                                   'resolved and at least one succeeded; a FOREIGN service\'s UPLOADED for directory #%d, to which we had an '
                                   'upload pending, was counted as ours (UPLOADED is matched on the directory only) and our own later result '
